@@ -32,7 +32,7 @@ def gen_cases(rng, tier):
         acyclic = rng.random() < 0.3
         # a third of the mechanics have branches that bottom out the stack (RecursionError -> sentinel for that
         # branch only; no other branch, and no later evaluation, may be affected)
-        mech = C07.gen_mech(rng, acyclic, recerr_p=rng.choice([0.04, 0.04, 0.3]))
+        mech = C07.gen_mech(rng, acyclic, recerr_p=rng.choice([0.04, 0.04, 0.3]), try_classes=("ValueError",))   # injected faults are never ValueErrors
         lim = rng.choice([None, ["int", 1], ["int", 2], ["int", 3], ["frac", 1, 4], ["frac", 1, 8]])
         probes = [[0, None], [0, ["int", 2]], [len(mech["states"]) - 1, rng.choice([None, ["int", 1], ["frac", 1, 4]])],
                   [rng.randrange(len(mech["states"])), ["int", 0]]]
